@@ -1,6 +1,6 @@
 ---- MODULE AtlasParams ----
 MaxHosts == 3
 AAuth == {"digest", "none", "basic", "reject", "digest_unknown"}
-AKinds == {"none", "status", "reset", "cut", "notgzip", "longline", "gzcut", "outdir", "outfull"}
+AKinds == {"none", "status", "reset", "cut", "notmp", "notgzip", "longline", "gzcut", "outdir", "outfull"}
 ACli == {TRUE, FALSE}
 ====
